@@ -29,8 +29,11 @@ def confirm(prop, ab, src):
     try:
         r = sh(['git', '-C', '/repo', 'worktree', 'add', '-q', '--detach', wt, 'HEAD'])
         assert r.returncode == 0, r.stderr
-        env = dict(os.environ, PYTHONPATH=wt, PYTHONHASHSEED='0')
-        demo = os.path.join(dst, 'demo.py')
+        env = dict(os.environ, PYTHONPATH=wt, PYTHONHASHSEED='0', SCMO_ROOT=wt)
+        # some demonstrations derive the package root from their own location (<worktree>/seeded_out/<X>/demo.py): run them from there
+        os.makedirs(os.path.join(wt, 'seeded_out', ab), exist_ok=True)
+        demo = os.path.join(wt, 'seeded_out', ab, 'demo.py')
+        shutil.copy(os.path.join(dst, 'demo.py'), demo)
         r0 = sh([PY, demo], cwd=wt, env=env, timeout=1200)
         meta['demo_without_change_exit'] = r0.returncode
         r = sh(['git', '-C', wt, 'apply', os.path.join(dst, 'patch.diff')])
